@@ -977,7 +977,9 @@ where
 
                     match event {
                         Ok(Some(event)) => {
-                            if tx_send.receiver_count() > 0 {
+                            // The end of the incremental initial contents is an event of this
+                            // subscription only; subscribers of the mirror got a snapshot.
+                            if tx_send.receiver_count() > 0 && !matches!(event, HashMapEvent::InitialComplete) {
                                 let _ = tx_send.send(event.clone());
                             }
 
